@@ -1740,8 +1740,10 @@ def accumulate_part(binop, seq, initial, is_first=False):
         res = list(accumulate(binop, seq))
     else:
         res = list(accumulate(binop, seq, initial=initial))
-    if is_first:
-        return res, res[-1] if res else [], initial
+    if is_first or initial is no_default:
+        # ``initial is no_default`` on a later partition: every earlier partition
+        # was empty, nothing has been accumulated yet
+        return res, res[-1] if res else no_default
     return res[1:], res[-1]
 
 
